@@ -91,6 +91,9 @@ def insert_noise(draw, root, n_min=1, n_max=6):
         if kind in ("title", "desc", "metadata"):
             legal = _ANY_PARENT  # descriptive elements are allowed inside any element
         cands = _containers(root, legal)
+        if kind == "whitespace":
+            # inter-element whitespace: only where there is an element to be "between"
+            cands = [c for c in cands if any(not k["tag"].startswith("#") for k in c[0]["c"])] or cands[:1]
         parent, _ = cands[draw(st.integers(0, len(cands) - 1))]
         pos = draw(st.integers(0, len(parent["c"])))
         if kind == "comment":
